@@ -318,7 +318,7 @@ def oracle(case, obs, flag_present, opt_tol):
         tr_ = np.linalg.norm(B - A @ Xv, axis=0) / safe
         att_ = 1e3 * 2.2e-16 * kap * (anorm2 * (np.linalg.norm(Xv, axis=0) + np.linalg.norm(X0, axis=0)) + bn) / safe      # r0 = b - A x0 is rounded at the scale of x0
         return tr_, att_
-    spoiled = flag_present and np.any(X0 != 0)
+    spoiled = (flag_present and np.any(X0 != 0)) or bool(case.get("guard_region"))     # regions of recorded defects
     # a zero right-hand side with x0 != 0 is iterated on internally (from x0/1e-40) but returned as exactly 0: its loop state is
     # not observable in the output, so the per-column clauses cannot be evaluated for such a batch
     hidden = any(bn[j] == 0 and np.any(X0[:, j] != 0) for j in range(nc)) or not np.any(bn > 0)
@@ -353,7 +353,7 @@ def oracle(case, obs, flag_present, opt_tol):
                 bad.append("info['errors'][-3] = %.6e but the iterate after %d steps has tracked residual %.6e" % (errs[-3], steps - 1, wantp))
         info["history_checked"] = 1
     # Krylov optimality of the iterate after `steps` steps
-    if case.get("check_opt", True) and steps >= 0:
+    if case.get("check_opt", True) and steps >= 0 and not case.get("guard_region"):
         worst = 0.0
         for j in range(nc):
             if bn[j] == 0:
@@ -380,14 +380,20 @@ def oracle(case, obs, flag_present, opt_tol):
 
 
 # ---------------------------------------------------------------- numerical-stability filter (case selection only)
-def ref_cg(A, Pd, B, X0, tol, K, dtype, x0_unscaled=True):
+def ref_cg(A, Pd, B, X0, tol, K, dtype, x0_unscaled=True, div_small=True):
     """Reference recurrence of preconditioned CG with per-column normalisation in precision `dtype`; used ONLY to
     decide whether a case is numerically stable enough for a tolerance comparison (it depends on the inputs only,
     never on cola's output), not as an oracle."""
     small = 1e-40
     A, Pd, B, X0 = A.astype(dtype), Pd.astype(dtype), B.astype(dtype), X0.astype(dtype)
     nrm = lambda R: np.sqrt(np.sum((R.conj() * R).real, axis=0, keepdims=True))
-    sdiv = lambda num, den: num / np.where(np.abs(den) < small, small, den)
+    hit = [False]      # a guard of do_safe_div fired although the numerator is not zero: the absolute 1e-40 acts on a scaled quantity
+
+    def sdiv(num, den):
+        z = np.abs(den) < small
+        if np.any(z & (np.abs(num) > 0)):
+            hit[0] = True
+        return num / np.where(z, small if div_small else 1.0, den)
     mult = nrm(B)
     X = X0 if x0_unscaled else sdiv(X0, mult)
     R = sdiv(B, mult) - A @ X
@@ -414,7 +420,7 @@ def ref_cg(A, Pd, B, X0, tol, K, dtype, x0_unscaled=True):
         gamma = g1
         Pv = Z + beta * Pv
         k += 1
-    return dict(x=X * mult, steps=k, margins=margins, hist=hist, xs=xs)
+    return dict(x=X * mult, steps=k, margins=margins, hist=hist, xs=xs, guard_hit=hit[0])
 
 
 def stability(case, x0_unscaled=True):
@@ -423,9 +429,9 @@ def stability(case, x0_unscaled=True):
     cplx = case["cplx"]
     B = case["B"]
     X0 = case["X0"] if case["X0"] is not None else np.zeros_like(B)
-    lo = ref_cg(case["A"], case["Pd"], B, X0, case["tol"], case["max_iters"], np.complex128 if cplx else np.float64, x0_unscaled)
-    hi = ref_cg(case["A"], case["Pd"], B, X0, case["tol"], case["max_iters"], np.clongdouble if cplx else np.longdouble, x0_unscaled)
-    out = dict(same_steps=lo["steps"] == hi["steps"], steps=lo["steps"], min_margin=min(lo["margins"] + hi["margins"]))
+    lo = ref_cg(case["A"], case["Pd"], B, X0, case["tol"], case["max_iters"], np.complex128 if cplx else np.float64, x0_unscaled, case.get("div_small", True))
+    hi = ref_cg(case["A"], case["Pd"], B, X0, case["tol"], case["max_iters"], np.clongdouble if cplx else np.longdouble, x0_unscaled, case.get("div_small", True))
+    out = dict(same_steps=lo["steps"] == hi["steps"], steps=lo["steps"], min_margin=min(lo["margins"] + hi["margins"]), guard_hit=bool(lo["guard_hit"] or hi["guard_hit"]))
     if not out["same_steps"]:
         out.update(dev_x=np.inf, dev_r=np.inf, sens_A=np.inf, sens_rel=np.inf)
         return out
